@@ -4,6 +4,7 @@ from __future__ import annotations
 from hypothesis import strategies as st
 
 from reactivex import operators as ops
+from reactivex.subject import ReplaySubject, Subject
 
 from vlib import refwin
 from vlib.core import FAIL, OK, SKIP, Check
@@ -38,6 +39,10 @@ RULE = (
     "group subscriber have terminated or unsubscribed, no source subscription may remain open.  Non-trivial: a key "
     "re-created after expiry, or >=2 groups open when the source errors (derived durations: when it terminates either "
     "way); partition: both outputs non-empty; early exit: all consumers gone while a group's duration was still pending.  "
+    "subject_mapper (check subject_mapper): group_by / group_by_until given lambda: Subject() or the documented "
+    "lambda: ReplaySubject(); with the replay subject the group probes may subscribe 1..5 ticks after the group was "
+    "emitted and must still observe every element of the group in order and its terminal, none earlier than their own "
+    "subscription (expected tick = max(arrival, subscription)).  Thorough: timelines up to 14 elements.  "
     "Second subscription (group_by, group_by_until, derived durations): in about a third of the cases the SAME built "
     "observable is subscribed a second time, after the first subscription is over or overlapping it 1..3 ticks later; "
     "each subscription is judged by the same reference from its own subscribe tick (timeline durations are then a single "
@@ -68,7 +73,7 @@ def _span(case):
     for c in case.get("durations") or ():
         if c["dt"] is not None:
             extra = max(extra, c["dt"] + 2)
-    return h + extra + 2
+    return h + extra + 2 + (case.get("late") or 0)
 
 
 def _subs(case):
@@ -170,14 +175,24 @@ def _run_group(case):
     keyf = lab.fn("key", keyfn)
     elemf = lab.fn("elem", elemfn) if case.get("elem") else None
     durs = case.get("durations") or []
+    subj = None
+    if case.get("subject") == "subject":
+        subj = lab.fn("subject", lambda: Subject())
+    elif case.get("subject") == "replay":
+        subj = lab.fn("subject", lambda: ReplaySubject())
     if f == "group_by":
-        op = ops.group_by(keyf, elemf)
+        op = ops.group_by(keyf, elemf, subj) if subj else ops.group_by(keyf, elemf)
         durs = []
     else:
         durm = lab.fn("dur", lambda g: _dur_obs(lab, durs[(lab.cb_count["dur"] - 1) % len(durs)]))
-        op = ops.group_by_until(keyf, elemf, durm)
+        op = ops.group_by_until(keyf, elemf, durm, subj) if subj else ops.group_by_until(keyf, elemf, durm)
     obs = src.pipe(op)
-    probes = _subscribe_all(lab, case, obs, INNER)
+    inner = INNER
+    if case.get("late"):
+        # documented use of subject_mapper (lambda: ReplaySubject()): a group subscriber arriving `late` ticks after
+        # the group was emitted still receives every element of the group, in order, and its terminal
+        inner = {"mode": "late", "d": case["late"]}
+    probes = _subscribe_all(lab, case, obs, inner)
     if lab.escaped is None:
         lab.run(until=_horizon(case))
     if lab.escaped is not None:
@@ -201,6 +216,26 @@ def _run_group(case):
     return OK(nt, cls_all)
 
 
+def _late_view(out, d):
+    """What a subscriber arriving d ticks after each group's emission observes when the group replays:
+    the same elements in the same order and the same terminal, none earlier than its own subscription."""
+    res = dict(out)
+    res["_late"] = True
+    res["_rawgroups"] = out["groups"]
+    res["groups"] = []
+    for g in out["groups"]:
+        s0 = g["open"] + d
+        res["groups"].append(
+            {
+                "key": g["key"],
+                "open": g["open"],
+                "items": [[max(t, s0), v] for t, v in g["items"]],
+                "end": [max(g["end"][0], s0), g["end"][1], g["end"][2]] if g["end"] else None,
+            }
+        )
+    return res
+
+
 def _judge_group(case, i, sub, p, lab, keyfn, elemfn, durs):
     f = case["form"]
     sfx = SECOND if i == 1 else ""
@@ -215,13 +250,23 @@ def _judge_group(case, i, sub, p, lab, keyfn, elemfn, durs):
             if first is None:
                 first = out
             ties = max(ties, out["ties"])
+            if case.get("late"):
+                out = _late_view(out, case["late"])
             if _same(out, got):
                 matched = (choice, out)
                 break
     except refwin.SimSpin:
         return SKIP("sim-spin"), [], False
+    if first is not None and case.get("late") and not first.get("_late"):
+        first = _late_view(first, case["late"])
     ref = matched[1] if matched else first
     cls = ["form:" + f, "src:" + case["src"]["kind"], "key:" + case["key"]["mode"]] + _resub_classes(case, i)
+    if case.get("subject"):
+        cls.append("subject_mapper:" + case["subject"])
+    if case.get("late"):
+        cls.append("late-group-subscriber")
+        if any(any(t < g["open"] + case["late"] for t, _ in raw["items"]) for g, raw in zip(ref["groups"], ref["_rawgroups"])):
+            cls.append("late-subscriber-received-replayed-elements")
     tl = case["src"]["tl"]
     cls.append("term:" + (tl[-1][1] if tl and tl[-1][1] in ("C", "E") else "never"))
     if case.get("elem"):
@@ -473,14 +518,14 @@ _resub = st.sampled_from([None, None, None, None, {"mode": "after"}, {"mode": "a
 
 
 @st.composite
-def _group_cases(draw, form, resub_ok=True):
+def _group_cases(draw, form, resub_ok=True, tier="quick"):
     mode = draw(st.sampled_from(["hash", "hash", "hash", "ident"]))
     names = HASHABLE_NAMES if mode == "ident" else NAMES
     if mode == "ident" and draw(st.booleans()):
         names = ["i0", "false", "none", "s", "t", "i1"]  # few identity keys: groups get several elements
     src = {
         "kind": draw(st.sampled_from(["cold", "cold", "hot", "sync"])),
-        "tl": draw(timelines(max_len=9, max_dt=2, values=names, terminal=("C", "E", "E", None))),
+        "tl": draw(timelines(max_len=9 if tier == "quick" else 14, max_dt=2, values=names, terminal=("C", "E", "E", None))),
     }
     key = {"mode": mode}
     if mode == "hash":
@@ -520,6 +565,17 @@ def _partition_cases(form):
     )
 
 
+@st.composite
+def _subject_cases(draw, tier):
+    case = draw(_group_cases(draw(st.sampled_from(["group_by", "group_by_until", "group_by_until"])), tier=tier))
+    case["subject"] = draw(st.sampled_from(["subject", "replay", "replay", "replay"]))
+    if case["subject"] == "replay":
+        late = draw(st.sampled_from([0, 1, 2, 3, 5]))
+        if late:
+            case["late"] = late
+    return case
+
+
 _rule = st.one_of(
     st.fixed_dictionaries({"mode": st.just("count"), "n": st.sampled_from([1, 2, 2, 3, 4])}),
     st.fixed_dictionaries({"mode": st.just("sentinel"), "m": st.sampled_from([2, 3, 4]), "res": st.lists(st.integers(0, 3), min_size=1, max_size=2, unique=True)}),
@@ -527,8 +583,8 @@ _rule = st.one_of(
 
 
 @st.composite
-def _derived_cases(draw, early):
-    case = draw(_group_cases("group_by", resub_ok=not early))
+def _derived_cases(draw, early, tier="quick"):
+    case = draw(_group_cases("group_by", resub_ok=not early, tier=tier))
     case["form"] = "derived"
     case["rule"] = draw(_rule)
     if early:
@@ -541,10 +597,11 @@ def _derived_cases(draw, early):
 
 def checks(tier):
     return [
-        Check("group_by", _run, strategy=_group_cases("group_by"), examples={"quick": 800, "thorough": 16 * 5000}, shards={"quick": 4, "thorough": 16}),
-        Check("group_by_until", _run, strategy=_group_cases("group_by_until"), examples={"quick": 2000, "thorough": 16 * 12000}, shards={"quick": 4, "thorough": 16}),
+        Check("group_by", _run, strategy=_group_cases("group_by", tier=tier), examples={"quick": 800, "thorough": 16 * 5000}, shards={"quick": 4, "thorough": 16}),
+        Check("group_by_until", _run, strategy=_group_cases("group_by_until", tier=tier), examples={"quick": 2000, "thorough": 16 * 12000}, shards={"quick": 4, "thorough": 16}),
         Check("partition", _run, strategy=_partition_cases("partition"), examples={"quick": 400, "thorough": 16 * 2500}, shards={"quick": 4, "thorough": 16}),
         Check("partition_indexed", _run, strategy=_partition_cases("partition_indexed"), examples={"quick": 400, "thorough": 16 * 2500}, shards={"quick": 4, "thorough": 16}),
-        Check("derived_early_exit", _run, strategy=_derived_cases(True), examples={"quick": 500, "thorough": 16 * 3000}, shards={"quick": 4, "thorough": 16}),
-        Check("derived_duration", _run, strategy=_derived_cases(False), examples={"quick": 1200, "thorough": 16 * 8000}, shards={"quick": 4, "thorough": 16}),
+        Check("subject_mapper", _run, strategy=_subject_cases(tier), examples={"quick": 500, "thorough": 16 * 4000}, shards={"quick": 4, "thorough": 16}),
+        Check("derived_early_exit", _run, strategy=_derived_cases(True, tier), examples={"quick": 500, "thorough": 16 * 3000}, shards={"quick": 4, "thorough": 16}),
+        Check("derived_duration", _run, strategy=_derived_cases(False, tier), examples={"quick": 1200, "thorough": 16 * 8000}, shards={"quick": 4, "thorough": 16}),
     ]
